@@ -1,4 +1,5 @@
 import DispatchVerif.Core.DataP
+import DispatchVerif.Core.DataRc
 /-! # C13 — dispatch_data objects behave as immutable byte strings
 
 The model (`Core/DataP`) mirrors the *representation* of `src/data.c` — leaves and composites of range records,
@@ -54,5 +55,30 @@ theorem wf_closed (d1 d2 : Data) (h1 : d1.WF) (h2 : d2.WF) (off len : Nat) :
 /-- non-vacuity: a composite of two leaves, sliced across the seam -/
 example : ∃ d, subrange (concat (.leaf ⟨1, [1, 2, 3]⟩) (.leaf ⟨2, [4, 5]⟩)) 2 2 = some d ∧ d.den = [3, 4] := by
   refine ⟨_, rfl, ?_⟩; decide
+
+/-! ## a buffer's destructor runs exactly once, only after the object and everything derived from it have been released
+
+`DataRc`: leaves own buffers; a derived object holds one reference on the leaf of each of its records; an object whose count
+drops to zero is disposed of (a leaf runs its destructor, a composite releases its records). The operations the harness
+performs on real objects are replayed through `DataRc.step` and the destructors the real library runs are compared with the
+model's (never earlier, never twice, all of them once everything has been released). -/
+
+/-- after any sequence of create / derive / retain / release: no destructor has run twice, a destroyed buffer has no client
+    reference, and no live object has a record in it -/
+theorem destructor_once_and_not_early (ops : List DataRc.Op) (s : DataRc.St) (h : DataRc.run {} ops = some s) :
+    s.destroyed.Nodup ∧
+    (∀ l ∈ s.destroyed, ∃ o : DataRc.Obj, s.objs[l]? = some o ∧ o.kind = .leaf ∧ o.client = 0 ∧ o.live = false) ∧
+    (∀ l ∈ s.destroyed, ∀ o ∈ s.objs, o.live = true → l ∉ DataRc.recsOf o) :=
+  DataRc.destructor_once_and_not_early ops s h
+
+/-- … and once the client has released everything it held, the destructor of every buffer ever created has run -/
+theorem all_released_all_destroyed (ops : List DataRc.Op) (s : DataRc.St) (h : DataRc.run {} ops = some s)
+    (hall : ∀ o ∈ s.objs, o.client = 0) :
+    ∀ (l : DataRc.Id) (o : DataRc.Obj), s.objs[l]? = some o → o.kind = .leaf → l ∈ s.destroyed :=
+  DataRc.all_released_all_destroyed ops s h hall
+
+/-- non-vacuity: a leaf, a composite over it twice, the leaf released first: the destructor waits for the composite -/
+example : (DataRc.run {} [.create, .derive [0, 0] [0, 0], .release 0]).map (·.destroyed) = some [] ∧
+    (DataRc.run {} [.create, .derive [0, 0] [0, 0], .release 0, .release 1]).map (·.destroyed) = some [0] := by decide
 
 end C13
